@@ -60,9 +60,9 @@ class PyMapped:
 
 
 class State:
-    __slots__ = ('conds', 'env', 'heap', 'fields', 'ghost', 'taint', 'escaped', 'mapped', 'cur_exc')
+    __slots__ = ('conds', 'env', 'heap', 'fields', 'ghost', 'taint', 'escaped', 'mapped', 'cur_exc', 'elem_preds')
 
-    def __init__(self, conds=None, env=None, heap=None, fields=None, ghost=None, taint=False, escaped=frozenset(), mapped=None, cur_exc=None):
+    def __init__(self, conds=None, env=None, heap=None, fields=None, ghost=None, taint=False, escaped=frozenset(), mapped=None, cur_exc=None, elem_preds=()):
         self.conds = conds or []
         self.env = env or {}
         self.heap = heap or {}
@@ -72,9 +72,10 @@ class State:
         self.escaped = escaped
         self.mapped = mapped or {}
         self.cur_exc = cur_exc
+        self.elem_preds = elem_preds      # ((VL term, predicate), ...): "every element of this sequence satisfies predicate"
 
     def copy(self, **kw):
-        s = State(self.conds, self.env, self.heap, self.fields, self.ghost, self.taint, self.escaped, self.mapped, self.cur_exc)
+        s = State(self.conds, self.env, self.heap, self.fields, self.ghost, self.taint, self.escaped, self.mapped, self.cur_exc, self.elem_preds)
         for k, v in kw.items():
             setattr(s, k, v)
         return s
@@ -674,13 +675,15 @@ class Engine:
             if attr in CONTAINER_ATTRS:
                 outs.append((nonobj, PyFunc(f".{attr}", lambda en, s, a, kw, v=v, attr=attr: en.container_method(v, attr, s, a, kw))))
             else:
-                outs.append((nonobj, Raise(self.exc_new('AttributeError'))))
+                # attribute of a builtin value that is not modelled: never guess AttributeError (DESIGN 2.4: havoc + taint)
+                self.notes.append(f"unmodelled attribute .{attr} on a non-object value")
+                outs.append((nonobj.tainted(), PyFunc(f".{attr}", None)))
         isobj = self.fork(st, V.is_Obj(v))
         if isobj is not None:
             groups = {}
             for c in self.T.cid:
                 r = self.T.resolve_attr(c, attr) if (c in self.T.classes) else None
-                key = (r[0], r[1], id(r[2])) if r else None
+                key = (('inst',) if r[0] == 'inst' else (r[0], r[1], id(r[2]))) if r else None
                 groups.setdefault(key, (r, []))[1].append(c)
             for key, (r, classes) in groups.items():
                 cond = z3.Or(*[V.ocls(v) == self.T.cid[c] for c in classes])
@@ -830,26 +833,33 @@ class Engine:
             st = effect.enter(self, st, n)          # obligation inv(0); havoc; nothing assumed yet
 
         def elem(en, s, k, g=g, e=e, desc=desc, env0=env0, pre_state=pre_state):
-            """states refining s with the facts about nth(R, k) -- element expression evaluated at index k"""
+            """states refining s with the facts about nth(R, k) -- element expression evaluated at index k.
+            The element may only allocate fresh objects (checked when the comprehension is built), so evaluating it
+            lazily in the current heap is equivalent to evaluating it at comprehension time."""
             key = (R.get_id(), z3.simplify(k).get_id())
             if key in s.mapped:
                 return [s]
             s = s.copy(mapped={**s.mapped, key: True})
-            x = en.iter_elem(desc, k, s.copy(env=env0))
-            inner = en.bind_target(g.target, x, s.copy(env=dict(env0), fields=pre_state.fields if effect is None else s.fields))
+            facts = []
+            x = en.iter_elem(desc, k, s.copy(env=env0), facts)
+            s = s.assume(*facts)
+            inner = en.bind_target(g.target, x, s.copy(env=dict(env0)))
             res = []
             for (s2, v) in en.ev(e.elt, inner):
                 if isinstance(v, Raise):
                     continue            # raising elements are accounted for when the comprehension is built
                 t, s2 = en.term(v, s2)
-                res.append(s2.copy(env=s.env, fields=s.fields, heap=s.heap).assume(nth(R, k) == t))
+                res.append(s2.copy(env=s.env, heap=s.heap).assume(nth(R, k) == t))
             return res
         # evaluate the element once for an arbitrary index: raising paths make the comprehension raise
+        watermark = next(_alloc)
         k0 = fresh('ck', IntS)
         gen = st.assume(k0 >= 0, k0 < n)
         if effect is not None:
             gen = effect.at(self, gen, k0)
-        x = self.iter_elem(desc, k0, gen)
+        facts = []
+        x = self.iter_elem(desc, k0, gen, facts)
+        gen = gen.assume(*facts)
         inner = self.bind_target(g.target, x, gen)
         any_ok = False
         for (s2, v) in self.ev(e.elt, inner):
@@ -859,14 +869,34 @@ class Engine:
                 any_ok = True
                 if effect is not None:
                     effect.step(self, s2, k0)      # obligation inv(k0+1)
-                elif s2.fields is not inner.fields and any(s2.fields.get(a) is not inner.fields.get(a) for a in s2.fields):
-                    raise OutOfSubset("comprehension element writes object state (needs comp_effects in the contract)")
+                elif not self.only_fresh_writes(s2, inner, watermark):
+                    raise OutOfSubset("comprehension element writes pre-existing object state (needs comp_effects in the contract)")
         if any_ok or True:
             s = st.assume(length(R) == n, n >= 0)
             if effect is not None:
                 s = effect.exit(self, s, n)
             out.append((s, PyMapped(V.List(R), n, elem)))
         return out
+
+    def only_fresh_writes(self, after, before, watermark):
+        """every attribute store made between `before` and `after` targets an object allocated after `watermark`"""
+        for a, arr in after.fields.items():
+            base = before.fields.get(a)
+            cur = arr
+            while True:
+                if base is not None and cur.eq(base):
+                    break
+                if z3.is_app(cur) and cur.decl().kind() == z3.Z3_OP_STORE:
+                    obj = z3.simplify(cur.arg(1))
+                    ok = z3.is_app(obj) and obj.decl().name() == 'Obj' and z3.is_int_value(obj.arg(1)) and obj.arg(1).as_long() < -watermark
+                    if not ok:
+                        return False
+                    cur = cur.arg(0)
+                    continue
+                if base is None and cur.eq(field0(a)):
+                    break
+                return False
+        return True
 
     def filter_comprehension(self, e, g, desc, st):
         """[elt for x in L if c]: result is an opaque list; element facts are lost (weak, sound) unless elt is the loop variable"""
@@ -955,6 +985,11 @@ class Engine:
             return V.titems(t)
         t = self.read(src, st)
         if kind == 'list':
+            for test, sel in ((V.is_List, V.items), (V.is_Tuple, V.titems), (V.is_Set, V.sitems)):
+                if self.fork(st, z3.Not(test(t))) is None:
+                    return z3.simplify(sel(t))
+            if self.fork(st, z3.Not(V.is_Dict(t))) is None:
+                return keys(V.ditems(t))
             return z3.If(V.is_List(t), V.items(t), z3.If(V.is_Tuple(t), V.titems(t), z3.If(V.is_Dict(t), keys(V.ditems(t)), V.sitems(t))))
         if kind == 'keys': return keys(V.ditems(t))
         if kind == 'values': return vals(V.ditems(t))
@@ -973,14 +1008,21 @@ class Engine:
             n = z3.If(l < n, l, n)
         return n
 
-    def iter_elem(self, d, k, st):
+    def elem_facts_for(self, st, seq, x):
+        seq = z3.simplify(seq)
+        return [pred(x) for (t, pred) in st.elem_preds if z3.simplify(t).eq(seq)]
+
+    def iter_elem(self, d, k, st, facts=None):
         n = self.iter_len(d, st)
         idx = (n - 1 - k) if d.reversed else k
         vals_ = []
         for kind, src in d.sources:
             if kind == 'range':
                 vals_.append(V.Int(idx)); continue
-            x = nth(self.src_seq(kind, src, st), idx)
+            seq = self.src_seq(kind, src, st)
+            x = nth(seq, idx)
+            if facts is not None:
+                facts += self.elem_facts_for(st, seq, x)
             if kind == 'items':
                 x = PyTuple([V.fst(x), V.snd(x)])
             vals_.append(x)
@@ -1655,7 +1697,9 @@ class Engine:
         h = self.havoc_loop_state(st, names, muts, attrs, extra).assume(k >= 0, k < n, n >= 0)
         if lc is not None:
             h = h.assume(*[g for (_, g) in lc.inv(self, h, k, st)])
-        x = self.iter_elem(desc, k, h)
+        facts = []
+        x = self.iter_elem(desc, k, h, facts)
+        h = h.assume(*facts)
         states = [h]
         for src in self.mapped_sources(desc):
             nxt = []
@@ -1776,7 +1820,7 @@ def fun_key(k):
 
 
 INLINE = set()
-CONTAINER_ATTRS = {'append', 'extend', 'get', 'items', 'keys', 'values', 'pop', 'setdefault', 'add', 'update', 'startswith',
+CONTAINER_ATTRS = {'bit_length', 'append', 'extend', 'get', 'items', 'keys', 'values', 'pop', 'setdefault', 'add', 'update', 'startswith',
                    'endswith', 'join', 'format', 'lower', 'upper', 'split', 'strip', 'copy', 'index', 'count', 'insert', 'remove', 'encode', 'decode', 'replace'}
 
 from .builtins import BUILTINS, EXTERNALS, METHODS  # noqa: E402  (models of builtins; needs the classes above)
